@@ -52,6 +52,10 @@ type Exec struct {
 	splitHyp *Term
 	suffix   string
 	stack    []*ssa.Function
+	ghostCtr int
+	absDone  map[string]bool
+	funcCells map[*Cell]FuncV
+	ghosts   map[string]Val
 	split    splitRun
 	AssumedNotes []string
 }
@@ -89,7 +93,10 @@ type Frame struct {
 	order   []*ssa.BasicBlock
 	edgeOv  map[[2]int]edgeState
 	iterTag string
+	lastUnknown string
 }
+
+var _ = 0
 
 type Loop struct {
 	Header *ssa.BasicBlock
@@ -223,6 +230,8 @@ func (fr *Frame) rootOf(v ssa.Value) ssa.Value {
 func (fr *Frame) modifiedRoots(lp *Loop) (map[ssa.Value]bool, bool) {
 	roots := map[ssa.Value]bool{}
 	unknown := false
+	unknownWhy := ""
+	defer func() { fr.lastUnknown = unknownWhy }()
 	mark := func(v ssa.Value) {
 		r := fr.rootOf(v)
 		switch r.(type) {
@@ -231,9 +240,11 @@ func (fr *Frame) modifiedRoots(lp *Loop) (map[ssa.Value]bool, bool) {
 		default:
 			if _, ok := r.Type().Underlying().(*types.Pointer); ok {
 				unknown = true
+				unknownWhy = fmt.Sprintf("%s (%T)", r.Name(), r)
 			}
 			if _, ok := r.Type().Underlying().(*types.Slice); ok {
 				unknown = true
+				unknownWhy = fmt.Sprintf("%s (%T)", r.Name(), r)
 			}
 		}
 	}
@@ -247,15 +258,29 @@ func (fr *Frame) modifiedRoots(lp *Loop) (map[ssa.Value]bool, bool) {
 			case *ssa.MapUpdate:
 				mark(x.Map)
 			case ssa.CallInstruction:
-				for _, a := range x.Common().Args {
+				cc := x.Common()
+				callee := cc.StaticCallee()
+				if bi, ok := cc.Value.(*ssa.Builtin); ok {
+					switch bi.Name() {
+					case "copy", "delete", "clear":
+						mark(cc.Args[0])
+					}
+					continue
+				}
+				for i, a := range cc.Args {
 					switch a.Type().Underlying().(type) {
-					case *types.Pointer, *types.Slice:
-						mark(a)
+					case *types.Pointer, *types.Slice, *types.Map:
+						if callee == nil || fr.ex.mayModifyParam(callee, i, nil) {
+							mark(a)
+						}
 					}
 				}
-				if cl, ok := x.Common().Value.(*ssa.MakeClosure); ok {
-					for _, b := range cl.Bindings {
-						mark(b)
+				if cl, ok := cc.Value.(*ssa.MakeClosure); ok {
+					fn := cl.Fn.(*ssa.Function)
+					for i, b := range cl.Bindings {
+						if fr.ex.mayModifyFreeVar(fn, i, nil) {
+							mark(b)
+						}
 					}
 				}
 			}
@@ -953,4 +978,160 @@ func (fr *Frame) execBlock(b *ssa.BasicBlock) {
 		}
 		fr.exec(in)
 	}
+}
+
+// ---- may-modify summaries (syntactic, conservative) ----
+
+var modSummary = map[string]bool{}
+
+// mayModifyParam reports whether fn may write through its i-th parameter (pointer, slice or map).
+func (ex *Exec) mayModifyParam(fn *ssa.Function, i int, stack map[*ssa.Function]bool) bool {
+	if con := ex.P.Store.Funcs[fn.String()]; con != nil && (con.Trusted || con.Abstract || len(con.Ensures) > 0 || len(con.Requires) > 0 || len(con.Modifies) > 0) && !con.Inline {
+		if i < len(fn.Params) {
+			name := fn.Params[i].Name()
+			for _, m := range con.Modifies {
+				m = strings.TrimPrefix(m, "*")
+				if j := strings.Index(m, "."); j >= 0 {
+					m = m[:j]
+				}
+				if m == name {
+					return true
+				}
+			}
+		}
+		return false
+	}
+	switch fn.String() {
+	case "fmt.Errorf", "fmt.Sprintf", "errors.New", "bytes.Compare", "(encoding/binary.bigEndian).Uint64", "(encoding/binary.littleEndian).Uint64":
+		return false
+	}
+	if fn.Blocks == nil || i >= len(fn.Params) {
+		return true
+	}
+	return ex.mayModifyValue(fn, fn.Params[i], fmt.Sprintf("%s#p%d", fn.String(), i), stack)
+}
+
+func (ex *Exec) mayModifyFreeVar(fn *ssa.Function, i int, stack map[*ssa.Function]bool) bool {
+	if fn.Blocks == nil || i >= len(fn.FreeVars) {
+		return true
+	}
+	return ex.mayModifyValue(fn, fn.FreeVars[i], fmt.Sprintf("%s#f%d", fn.String(), i), stack)
+}
+
+func (ex *Exec) mayModifyValue(fn *ssa.Function, root ssa.Value, key string, stack map[*ssa.Function]bool) bool {
+	if r, ok := modSummary[key]; ok {
+		return r
+	}
+	if stack == nil {
+		stack = map[*ssa.Function]bool{}
+	}
+	if stack[fn] {
+		return true
+	}
+	stack[fn] = true
+	defer delete(stack, fn)
+	// values derived from root (addresses into it)
+	derived := map[ssa.Value]bool{root: true}
+	changed := true
+	for changed {
+		changed = false
+		for _, b := range fn.Blocks {
+			for _, in := range b.Instrs {
+				v, ok := in.(ssa.Value)
+				if !ok || derived[v] {
+					continue
+				}
+				var src ssa.Value
+				switch x := in.(type) {
+				case *ssa.FieldAddr:
+					src = x.X
+				case *ssa.IndexAddr:
+					src = x.X
+				case *ssa.Slice:
+					src = x.X
+				case *ssa.ChangeType:
+					src = x.X
+				case *ssa.Convert:
+					src = x.X
+				case *ssa.Phi:
+					for _, e := range x.Edges {
+						if derived[e] {
+							src = e
+						}
+					}
+				case *ssa.UnOp:
+					// loading a pointer/slice/map out of the object: still reaches memory the caller can see
+					if x.Op == token.MUL && derived[x.X] {
+						switch x.Type().Underlying().(type) {
+						case *types.Pointer, *types.Slice, *types.Map:
+							src = x.X
+						}
+					}
+				}
+				if src != nil && derived[src] {
+					derived[v] = true
+					changed = true
+				}
+			}
+		}
+	}
+	res := false
+	for _, b := range fn.Blocks {
+		for _, in := range b.Instrs {
+			switch x := in.(type) {
+			case *ssa.Store:
+				if derived[x.Addr] {
+					res = true
+				}
+			case *ssa.MapUpdate:
+				if derived[x.Map] {
+					res = true
+				}
+			case ssa.CallInstruction:
+				cc := x.Common()
+				callee := cc.StaticCallee()
+				for i, a := range cc.Args {
+					if !derived[a] {
+						continue
+					}
+					if b, ok := cc.Value.(*ssa.Builtin); ok {
+						switch b.Name() {
+						case "len", "cap":
+							continue
+						case "append":
+							if i == 0 {
+								continue // result is a new slice value; aliasing handled by the frame engine
+							}
+							continue
+						case "copy":
+							if i == 0 {
+								res = true
+							}
+							continue
+						}
+					}
+					if callee == nil || ex.mayModifyParam(callee, i, stack) {
+						res = true
+					}
+				}
+				if cl, ok := cc.Value.(*ssa.MakeClosure); ok {
+					cf := cl.Fn.(*ssa.Function)
+					for i, bnd := range cl.Bindings {
+						if derived[bnd] && ex.mayModifyFreeVar(cf, i, stack) {
+							res = true
+						}
+					}
+				}
+			case *ssa.MakeClosure:
+				cf := x.Fn.(*ssa.Function)
+				for i, bnd := range x.Bindings {
+					if derived[bnd] && ex.mayModifyFreeVar(cf, i, stack) {
+						res = true
+					}
+				}
+			}
+		}
+	}
+	modSummary[key] = res
+	return res
 }
